@@ -5,6 +5,12 @@ HERE = os.path.dirname(os.path.dirname(os.path.abspath(__file__)))
 PROPS = [json.loads(l) for l in open(os.path.join(HERE, 'properties.jsonl'))]
 
 CLAIMED = {
+ 'C18': dict(
+   category='proof',
+   text='Class invariant pdf_wf(form) as ground obligations, exhaustive over all 1 665 mappings of all forms and years (8 695 obligations) against the field tree, accessibility text, export values and limits parsed from the bundled templates on every run: the target exists; where the template labels the box with a line number (IRS speak text incl. compound labels, NC field names) the mapped line is that line; export values and length limits agree; no box is driven twice; the mapped line exists; every form that can require filing has a template and mappings. Exclusive box groups: the real ButtonPDFField.value with the real value functions is evaluated on the whole value domain of the driving line - at most one box on, distinct export values, and the box that is on for a member is labelled with that member. PDFFiller._fill_form executed symbolically: each box receives the text of its own line, blank for an absent optional line, abort on unknown line / absent required line.',
+   design_ref='DESIGN 4 C18',
+   note='Trusted: pyvc/pdfread.py (XFA and AcroForm reader), contracts/pdf_label_exceptions.json (9 template label errors / deliberate reuses with their reasons). A label that does not parse counts as no label.',
+   technique='constructor postcondition (class invariant) by ground evaluation against the parsed templates; method contract of _fill_form by symbolic execution'),
  'C14': dict(
    category='proof',
    text='Round trip from_string(to_string(v)) == v on the real field methods: booleans and every enumeration used by an EnumField (all members and the empty choice) exhaustively; IntegerField, StringField and FloatField with places 0, 2, 5 symbolically for every value in the range of the field (exact places-decimals), z3. ValueStore.to_config: for every stored name exactly to_string(definition of that name, value) is written under form -> line. PDFFiller._read_form_fields stores every entry as from_string(definition registered under the same full name, text). habutax.solve records tax_year = args.year in the solution; fill_pdfs reads it, parses with the default dialect and hands exactly that year\'s catalogue to the filler (all three years reachable, unknown year aborts).',
